@@ -1,6 +1,7 @@
 import SdJwt.Lemmas.Strip
 import SdJwt.Lemmas.Kept
 import SdJwt.Lemmas.RestoreAll
+import SdJwt.Lemmas.MarkInv
 /-!
 # C02 — selective disclosure end to end: the verifier sees the original minus the redacted
 
@@ -50,3 +51,18 @@ theorem C02_verifier (env : Env) (T : MJ) (kept : List String) (inv : TreeInv T)
   rcases restoreAll_sound env T kept inv hacc with ⟨e, he⟩ | ⟨c', ps', h', hp⟩
   · rw [he] at h; cases h
   · rw [h'] at h; cases h; exact hp
+
+/-- **C02, issuer → (holder's selection) → verifier composed.** For every conformant claims tree,
+every marking the issuer performs (`markAll` defined) and ANY selection of the issuer's
+disclosures in ANY order: the restorer accepts, and the claims are the issued tree's claims with
+exactly those marked nodes present whose own and enclosing disclosures were selected — the
+original minus the redacted, everything else unchanged and in place. -/
+theorem C02_issue_select_verify (env : Env) (mk : Nat → Option String → J → String)
+    (addr : List (List String × String)) (T Tn : MJ) (ds : List SDisc) (inv : TreeInv T)
+    (h : markAll mk 0 addr T = some (Tn, ds)) (kept : List String)
+    (hstr : ∀ s ∈ kept, ∃ e ∈ ds, fromBase64 env s = .ok ⟨s, e.digest, e.key, e.value⟩)
+    (hnd : (kept.map env.hash).Nodup) :
+    ∃ c ps, restoreAll env Tn.payload kept = .ok (c, ps) ∧
+      removeAll c = Tn.project (fun g => kept.any (fun s => env.hash s = g)) ∧ Tn.plain = T.plain := by
+  obtain ⟨c, ps, hr, hc⟩ := issue_restore env mk addr T Tn ds inv h kept hstr hnd
+  exact ⟨c, ps, hr, hc, markAll_plain mk addr 0 T Tn ds h⟩
